@@ -1042,6 +1042,12 @@ class Interp:
         cbody = self.facts.body(path)
         if cbody is None:
             raise NotDerivable('closure body not available', where)
+        if captures is None:
+            sub = self._sub()
+            results = sub.run(path, list(args))
+            self.steps = sub.steps
+            self.call_sites += sub.call_sites
+            return [(r[0], r[1]) for r in results if not (isinstance(r[1], tuple) and r[1] and r[1][0] == 'diverges')]
         caps = Agg([fr._project(fr.store.get(v.root, TOP), v.proj) if isinstance(v, Ref) else v for v in captures.items], captures.kind)
         # by-value snapshot of captured references is enough for closures that only read their captures
         sub = self._sub()
@@ -1543,7 +1549,15 @@ class Interp:
         self._havoc(fr, t, 'callee %s not in the fragment' % res)
 
     def _closure_value(self, fr, op):
-        """(closure def-path, captured values) of a closure operand."""
+        """(closure def-path, captured values) of a closure operand; a function item passed as a callable gives
+        (its def-path, None)."""
+        kc = op_const(op)
+        if kc is not None and isinstance(kc.get('fn'), dict):
+            fn_ = kc['fn']
+            path_ = fn_.get('res') or fn_.get('def')
+            if path_ and self.facts.body(path_) is not None:
+                return path_, None
+            return None
         p = op_place(op)
         if p is None or p['p']:
             return None
@@ -1574,6 +1588,16 @@ class Interp:
         cbody = self.facts.body(path)
         if cbody is None:
             raise NotDerivable('closure body not available', where)
+        if captures is None:
+            # a plain function used as a callable
+            sub = self._sub()
+            results = sub.run(path, list(args))
+            self.steps = sub.steps
+            self.call_sites += sub.call_sites
+            results = [r for r in results if not (isinstance(r[1], tuple) and r[1] and r[1][0] == 'diverges')]
+            if len(results) != 1:
+                raise NotDerivable('function %s used as a callable has %d paths' % (path, len(results)), where)
+            return results[0][1]
         extra = {}
         caps = []
         back = []
@@ -1740,12 +1764,29 @@ class Interp:
     def _inline_call(self, fr, t, res, pth):
         cbody = self.facts.body(res)
         cargs = []
+        nested = {}      # references nested inside argument values: re-rooted in the callee (read-only snapshot)
+
+        def reroot(v, depth=0):
+            if isinstance(v, Ref) and depth < 6:
+                val = fr._project(fr.store.get(v.root, TOP), v.proj)
+                for _ in range(8):
+                    if not isinstance(val, Ref):
+                        break
+                    val = fr._project(fr.store.get(val.root, TOP), val.proj)
+                key = ('arg', len(nested), len(fr.store))
+                nested[key] = reroot(val, depth + 1) if isinstance(val, Agg) else val
+                return Ref(key, [])
+            if isinstance(v, Agg) and depth < 6:
+                return Agg([reroot(x, depth + 1) for x in v.items], v.kind)
+            return v
         for i, a in enumerate(t['args']):
             ty = cbody.local_ty(i + 1)
             if ty.startswith('&'):
-                cargs.append(('byref', fr.deref_operand(a)))
+                dv = fr.deref_operand(a)
+                cargs.append(('byref', reroot(dv) if isinstance(dv, Agg) else dv))
             else:
-                cargs.append(fr.operand(a))
+                ov = fr.operand(a)
+                cargs.append(reroot(ov) if isinstance(ov, Agg) else ov)
         sub = self._sub()
         cf_ = self.facts.fn(res) or {}
         names = [n_ for n_ in (cf_.get('generic_names') or []) if not n_.startswith("'")]
@@ -1756,6 +1797,7 @@ class Interp:
                 if n_ != a_:
                     sub.ty_subst[n_] = a_
         shared = {k_: fr.store[k_] for k_ in self.shared_keys if k_ in fr.store}
+        shared.update(nested)
         results = sub.run(res, cargs, extra=shared or None)
         self.steps = sub.steps
         self.fresh = sub.fresh
@@ -1977,6 +2019,7 @@ class Interp:
         if name == 'inverse':
             v = self._as_lin(fr.deref_operand(args[0]))
             fr.storev(dest, Opt(None, v.neg() if isinstance(v, Lin) else TOP, ('inverse', where)))
+            pth.events.append(('inverse-of', v, where))
             return True
         if name == 'pow':
             v = self._as_lin(fr.deref_operand(args[0]))
